@@ -333,6 +333,9 @@ func main() {
 		}
 	}
 
+	if len(ev.Coverage.Harnesses) == 0 {
+		fatal(2, "ERROR property=%s no harness was run (--only %q matches nothing)", prop, *only)
+	}
 	ev.Inconclusive = inconcl
 	ev.finish(pr, time.Since(t0))
 	if err := ev.write(filepath.Join(evidenceDir(), prop+".json")); err != nil {
